@@ -546,6 +546,33 @@ impl C14 {
             "devstdin" => "/dev/stdin".to_string(),
             _ => path.clone(),
         };
+        if case["program"]["plant"] == "reads-stdin" || case["program"]["plant"] == "big-stdin-child" {
+            // fixed scenarios with a fixed expectation (the in-process prediction has neither the binary's
+            // standard input nor real children)
+            stage("cli");
+            let reads = case["program"]["plant"] == "reads-stdin";
+            res.count(if reads { "cli_script_reads_standard_input" } else { "cli_real_child_ignoring_a_large_stdin_text" }, 1);
+            let want: &[u8] = if reads { b"before\n\nafter\n" } else { b"131072\ntrue\ndone\n" };
+            let path = format!("{tmp}/target/tmp/cli-{}.ns", std::process::id());
+            let piped = vec![(src.as_bytes().to_vec(), 0u64)];
+            let run = match route {
+                "eval" => realos::run_naija_args(&bin, &["--eval", &src], realos::Feed::Null),
+                "stdin" => realos::run_naija_args(&bin, &["-"], realos::Feed::Pipe(&piped)),
+                "devstdin" => realos::run_naija_args(&bin, &["/dev/stdin"], realos::Feed::Pipe(&piped)),
+                _ => {
+                    std::fs::write(&path, &src).map_err(|e| ("harness".to_string(), format!("write {path}: {e}")))?;
+                    realos::run_naija_args(&bin, &[&path], realos::Feed::Null)
+                }
+            }
+            .map_err(|m| ("harness".to_string(), m))?;
+            if run.stdout != want || run.code != 0 {
+                return Err((
+                    if run.stdout != want { "cli-output-differs" } else { "cli-exit-status" }.into(),
+                    format!("naija ({bin_kind}, {route}) on the fixed script `{}`: exit {} stdout {:?}, expected exit 0 stdout {:?}; stderr: {:?}", case["program"]["plant"].as_str().unwrap(), run.code, String::from_utf8_lossy(&run.stdout).chars().take(80).collect::<String>(), String::from_utf8_lossy(want), String::from_utf8_lossy(&run.stderr).chars().take(120).collect::<String>()),
+                ));
+            }
+            return Ok(());
+        }
         if route == "stdin-dir" {
             stage("cli");
             res.count("cli_stdin_is_a_directory", 1);
@@ -565,7 +592,21 @@ impl C14 {
         stage("cli");
         if ending == "runtime-error" && want_out.windows(14).any(|w| w == b"Stack overflow") {
             // where exactly the depth budget trips depends on the build's frame sizes (C08 territory):
-            // the diagnostic's span legitimately differs between this build and the naija binary
+            // the diagnostic's span legitimately differs between this build and the naija binary. What does
+            // not depend on the build: the run ends with that diagnostic and a non-zero status, not by a signal
+            if route == "file" {
+                res.count("cli_stack_overflow_programs", 1);
+                let path = format!("{tmp}/target/tmp/cli-{}.ns", std::process::id());
+                std::fs::write(&path, &src).map_err(|e| ("harness".to_string(), format!("write {path}: {e}")))?;
+                let run = realos::run_naija_args(&bin, &[&path], realos::Feed::Null).map_err(|m| ("harness".to_string(), m))?;
+                if run.code <= 0 || !run.stdout.windows(14).any(|w| w == b"Stack overflow") {
+                    return Err((
+                        "cli-output-differs".into(),
+                        format!("naija ({bin_kind}, file): the library pipeline ends with the `Stack overflow` diagnostic; the binary exited {} with {} bytes of stdout and no such diagnostic; stderr: {:?}", run.code, run.stdout.len(), String::from_utf8_lossy(&run.stderr).chars().take(160).collect::<String>()),
+                    ));
+                }
+                return Ok(());
+            }
             return Err(("discard".into(), "stack-overflow-span-is-build-dependent".into()));
         }
         res.count(&format!("cli_{route}"), 1);
@@ -683,6 +724,19 @@ impl Engine for C14 {
                 let text = resolver_heavy(3000, 24);
                 let program = json!({"prog": prog::block_to_json(&[St::Raw(String::new())]), "src": text, "plant": "resolver-heavy"});
                 return json!({"kind": "cli", "program": program, "route": "file", "chunks": [65536], "bin": "release", "packets": false});
+            }
+            // fixed scripts through every route: one reads a line of standard input itself (nothing is left:
+            // an empty line), one gives a large stdin_text to a real child that never reads it
+            if (i / 3) % 32 == 13 {
+                let which = (i / 3 / 32) % 8;
+                let route = ["file", "eval", "stdin", "devstdin"][(which % 4) as usize];
+                let (text, what) = if which < 4 {
+                    ("shout(\"before\")\nshout(read_line(\"\"))\nshout(\"after\")\n".to_string(), "reads-stdin")
+                } else {
+                    ("make big get \"x\"\nmake i get 0\njasi (i small pass 17) start\n    big get big add big\n    i get i add 1\nend\nshout(big.len())\nmake c get command(\"true\")\nc.stdin_text(big)\nmake r get c.run()\nshout(r.success())\nshout(\"done\")\n".to_string(), "big-stdin-child")
+                };
+                let program = json!({"prog": prog::block_to_json(&[St::Raw(String::new())]), "src": text, "plant": what});
+                return json!({"kind": "cli", "program": program, "route": route, "chunks": [65536], "bin": "dev", "packets": false});
             }
             // the script is to come from standard input, and standard input cannot be read (a directory):
             // nothing may run and the status is non-zero
@@ -812,9 +866,12 @@ impl Engine for C14 {
             if case["route"] != "file" {
                 v.push(set("route", json!("file")));
             }
-            let p = prog::block_from_json(&case["program"]["prog"]);
-            for cand in prog::shrink_candidates(&p, 300) {
-                v.push(set("program", json!({"prog": prog::block_to_json(&cand), "plant": case["program"]["plant"]})));
+            // (sources given by their exact bytes are scenarios of their own: not shrunk)
+            if case["program"]["src"].is_null() {
+                let p = prog::block_from_json(&case["program"]["prog"]);
+                for cand in prog::shrink_candidates(&p, 300) {
+                    v.push(set("program", json!({"prog": prog::block_to_json(&cand), "plant": case["program"]["plant"]})));
+                }
             }
             return v;
         }
